@@ -26,7 +26,7 @@ namespace c14w {
     // what std::vector really allocates through: the allocator rebound to its value type
     static_assert(std::is_same<typename std::allocator_traits<typename V::allocator_type>::template rebind_alloc<T>,
                                aligned_allocator<T, 64>>::value,
-                  "W3 rebinding the vector's allocator to T keeps the 64-byte alignment");
+                  "W3 std::vector allocates through allocator_traits::rebind_alloc<T>: it must still be aligned_allocator<T,64> (rebind has to carry the alignment)");
     static_assert(std::is_same<typename V::allocator_type::value_type, T>::value, "W4 value_type");
     static_assert(std::is_same<typename V::allocator_type::pointer, T *>::value, "W5 raw pointers (data() is the allocation)");
     static constexpr bool ok = true;
